@@ -135,6 +135,17 @@ func genC16(t *rapid.T) C16Case {
 	}
 	c.X = rapid.SampledFrom(concrete).Draw(t, "x")
 	c.Delta = rapid.SampledFrom([]int{1, 5, 1000}).Draw(t, "delta")
+	// X always has an explicit entry, so that "raise the cost of X by delta" is exact and
+	// does not depend on the engine's built-in default costs
+	hasX := false
+	for _, ce := range c.Costs {
+		if ce.Name == c.X {
+			hasX = true
+		}
+	}
+	if !hasX {
+		c.Costs = append(c.Costs, CostEntry{Name: c.X, C: fstr(rapid.SampledFrom(pool).Draw(t, "cost_x"))})
+	}
 	c.Src = m.Render(tree)
 	return c
 }
@@ -238,25 +249,6 @@ func checkC16(c C16Case, r *Rec) *Violation {
 	for _, ce := range c.Costs {
 		costTag[ce.Name] = ce.C
 	}
-	// the default cost X has when the map has no entry for it
-	defaultOf := func(name string) float64 {
-		isVar := false
-		c.Tree.Walk(func(x *m.Node) {
-			if x.Kind == m.KVar && x.Name == name {
-				isVar = true
-			}
-		})
-		class, def := "operator", 10.0
-		if isVar {
-			class, def = "variable", 7.0
-		}
-		for _, ce := range c.Costs {
-			if ce.Name == class {
-				return ce.F()
-			}
-		}
-		return def
-	}
 	compile := func(mask int, costs []CostEntry) (*CfgRun, *Violation) {
 		return runCfg("C16", u, src, Build{Mask: mask, How: HowMapAll, Costs: costs})
 	}
@@ -327,12 +319,14 @@ func checkC16(c C16Case, r *Rec) *Violation {
 		}
 
 		// (iii) raising the cost of X never moves an operand mentioning X ahead of one that does not
+		hadEntry := false
 		raised := withCost(c.Costs, c.X, func(old float64, had bool) float64 {
-			if !had {
-				old = defaultOf(c.X)
-			}
+			hadEntry = had
 			return old + float64(c.Delta)
 		})
+		if !hadEntry {
+			continue // hand-written case without an entry for X: the raise would depend on built-in defaults
+		}
 		onR, v := compile(base|MaskReorder, raised)
 		if v != nil {
 			return v
